@@ -90,6 +90,10 @@ def tasks(tier):
         cfg = dict(M=M, max_unknown=mu, alphabet=["ok", "x:U", "r:U", "x:T", "x:R", "r:S"],
                    strat={"default": None, "per": per}, budget={"max": 3, "window": 8})
         out.append({"family": "permit-no-strategy-for-class", "cfg": cfg, "entry": e, "bound": 0})
+        # the same with failures that carry a Retry-After hint: a hint is advice for a strategy,
+        # it does not stand in for one
+        cfg2 = dict(cfg, alphabet=["ok", "x:U+ra", "r:S+ra", "x:R+ra", "x:T", "r:U+ra"], ra_ticks=2)
+        out.append({"family": "permit-no-strategy-for-class", "cfg": cfg2, "entry": e, "bound": 0})
     # a deadline of zero; handler decisions through the context-manager entry points
     for e in Q4 + ["Policy.call", "RetryPolicy.execute"]:
         cfg = dict(M=3, deadline=0, alphabet=["ok", "x:T", "r:T"], durs=[0, 1], max_unknown=None,
